@@ -23,7 +23,12 @@ func (t NamedTypes) Len() int {
 func (t NamedTypes) Less(i, j int) bool {
 	a := t[i].Type.SourceContexts[0].Start.Line
 	b := t[j].Type.SourceContexts[0].Start.Line
-	return a < b
+	if a != b {
+		return a < b
+	}
+	// declarations that come from different files (or were copied in by a mixin) can share a line number:
+	// the name decides, so that the order does not depend on the order the caller collected the types in
+	return t[i].Name < t[j].Name
 }
 
 // Swap swaps the elements with indexes i and j.
